@@ -57,7 +57,7 @@ TEXT ·DotuUnitary(SB), NOSPLIT, $0
 	MOVSLDUP_X3_X3             // X_i     = { real(x[i]), real(x[i]) }
 	MOVSD  (Y_PTR)(IDX*8), X10 // X_j     = { imag(y[i]), real(y[i]) }
 	MULPS  X10, X3             // X_i     = { imag(y[i]) * real(x[i]), real(y[i]) * real(x[i]) }
-	SHUFPS $0x1, X10, X10      // X_j     = { real(y[i]), imag(y[i]) }
+	SHUFPS $0xE1, X10, X10     // X_j     = { real(y[i]), imag(y[i]) }, upper half stays zero
 	MULPS  X10, X2             // X_(i-1) = { real(y[i]) * imag(x[i]), imag(y[i]) * imag(x[i]) }
 
 	// X_i = {
